@@ -583,6 +583,21 @@ class Gen:
             right, _, _ = self.select(depth - 1, top=False, types=want, allow_order=False)
             sql = f'{left} {op} {right}'
             meta = {'order_cols': [], 'total_order': False, 'limit': False}
+            if cfg.order and cfg.column_aliases and self.chance(1, 3):
+                # ORDER BY [LIMIT] after a set operation belongs to the whole compound; ordering by every output
+                # column makes the result (and what LIMIT keeps) unique up to identical rows
+                self.tags.add('setop:trailing-order')
+                keys = [f'c{i}' for i in range(len(types))]
+                if self.chance(1, 3):
+                    keys[0] += ' DESC'
+                sql += ' ORDER BY ' + ', '.join(keys)
+                meta = {'order_cols': list(range(len(types))), 'total_order': True, 'limit': False}
+                if cfg.limit and self.chance(1, 2):
+                    self.tags.add('setop:trailing-limit')
+                    self.tags.add('limit')
+                    meta['limit'] = True
+                    meta['sql_unlimited'] = prefix + sql
+                    sql += f' LIMIT {self.pick([1, 2, 3])}'
             return prefix + sql, types, meta
         sql, types, meta = self.select(depth, top=True)
         if meta.get('sql_unlimited'):
